@@ -13,7 +13,7 @@ namespace vf {
 using size_type = etl::size_t;
 using SV = etl::static_vector<int, VF_N>;
 using IV = etl::inplace_vector<int, VF_N>;
-struct is_mult3 { auto operator()(int const& x) const -> bool { return x % 3 == 0; } };
+struct is_odd { auto operator()(int const& x) const -> bool { return (x & 1) != 0; } };
 
 // ---------------------------------------------------------------- static_set
 #define SS_API(P, S)                                                                                                   \
@@ -123,7 +123,7 @@ VF_E int const* sst_cupper_bound_h(SST const& s, long const& k) { return s.upper
     VF_E int* P##_erase_cit(F& s, int const* pos) { return s.erase(pos); }                                             \
     VF_E int* P##_erase_range(F& s, int const* f, int const* l) { return s.erase(f, l); }                              \
     VF_E size_type P##_erase_key(F& s, int const& k) { return s.erase(k); }                                            \
-    VF_E size_type P##_erase_if(F& s) { return etl::erase_if(s, is_mult3{}); }                                         \
+    VF_E size_type P##_erase_if(F& s) { return etl::erase_if(s, is_odd{}); }                                         \
     VF_E void P##_swap(F& a, F& b) { a.swap(b); }                                                                      \
     VF_E void P##_swap_free(F& a, F& b) { swap(a, b); }                                                                \
     VF_E void P##_copy_ctor(F* out, F const& o) { new (out) F(o); }                                                    \
